@@ -61,7 +61,7 @@ PROPS["C20"] = dict(
     rule="one case = (B, L, E) or a row of the exhaustive grid (fixed B, all T); compared with integer RFC 5052 arithmetic; "
          "all cases non-trivial; sampled triples deduplicated by value",
     exhaustive={"quick": False, "thorough": False},
-    exhaustive_subspaces={"quick": ["T,B in 1..600, E=1"], "thorough": ["T,B in 1..3000, E=1"]},
+    exhaustive_subspaces={"quick": ["T,B in 1..600, E=1"], "thorough": ["T,B in 1..8000, E=1"]},
     budget_s={"quick": 600, "thorough": 3600},
     require_counters={"any": {"points_checked": 100000}},
     assumptions=["the real applis/eperftool/blocking_struct.c is compiled; its printf goes to /dev/null"],
